@@ -388,11 +388,17 @@ pub fn run(ctx: &mut Ctx) -> (&'static str, String, bool) {
         };
         for subt in 0u16..256 {
             for reqi in 0u16..256 {
+                if miri && (subt >= 32 || ![0, 1, 255].contains(&reqi) || subt as u64 % nshards != shard) {
+                    continue;
+                }
                 judge_one(&[1, 3, reqi as u8, subt as u8], &format!("TINY sub-type {subt} request id {reqi}"), &mut p);
             }
         }
-        for lay in c.kinds() {
-            for _ in 0..4 {
+        for (ki, lay) in c.kinds().iter().enumerate() {
+            if miri && ki as u64 % (4 * nshards) != shard {
+                continue;
+            }
+            for _ in 0..if miri { 1 } else { 4 } {
                 let o = GenOpts { text: TextMode::Ascii, max_list: Some(2), boundary: 6, hostile: false };
                 if let Some((_, f)) = c.ref_frame(&mut r, lay, &o, true) {
                     judge_one(&f, &format!("a {} packet", lay.name), &mut p);
